@@ -166,8 +166,10 @@ def handle_quic_packet(packet: Packet, keylog, quic_sessions: list[QuicSession],
                 return
         else:
             # match by checking all known cid lengths for session: longest first, so that the result does not
-            # depend on set iteration order; a zero-length cid matches every datagram and identifies nothing
-            for cid in sorted(session.client_cids | session.server_cids, key=lambda c: (-len(c), c)):
+            # depend on set iteration order; a zero-length cid matches every datagram and identifies nothing.
+            # A connection ID is the destination of datagrams travelling towards the endpoint that chose it.
+            from_server = packet.ip_src == session.server_ip and packet.sport == session.server_port
+            for cid in sorted(session.client_cids if from_server else session.server_cids, key=lambda c: (-len(c), c)):
                 if len(cid) == 0:
                     continue
                 if cid == packet_payload[1:1 + len(cid)]:
